@@ -2,7 +2,9 @@ package datadog
 
 import (
 	"errors"
+	"fmt"
 	"io"
+	"net/http"
 	"strings"
 	"time"
 
@@ -73,6 +75,10 @@ func (cfg *Config) NewForwarder(parentLogger logger.Logger, args base.ChunkConsu
 func (cfg *Config) VerifyConfig(schema base.LogSchema) error {
 	if len(cfg.Upstream.Address) == 0 {
 		return errors.New("expected a valid datadog api address")
+	}
+	// the client worker builds its request with http.NewRequest and panics if that fails
+	if _, err := http.NewRequest(http.MethodPost, cfg.Upstream.Address, nil); err != nil {
+		return fmt.Errorf("invalid datadog api address: %w", err)
 	}
 
 	if cfg.Upstream.HTTPTimeout == 0 {
